@@ -331,6 +331,35 @@ class G:
         return node
 
 
+def nullable(n):
+    k = n["k"]
+    if k == "kw":
+        return False
+    if k == "asgn":
+        return n["op"] in ("*=", "?=")
+    if k in ("seq", "un"):
+        return all(nullable(x) for x in n["xs"])
+    if k == "alt":
+        return any(nullable(x) for x in n["xs"])
+    if k == "opt":
+        return True
+    if k == "rep":
+        return (not n["plus"]) or nullable(n["x"])
+    raise ValueError(k)
+
+
+def loops_forever(n, in_rep=False):
+    """Arpeggio: an ordered choice accepts an alternative that matched nothing (`x*` gives `[]`) and
+    wraps it into a truthy `[[]]`; a repetition around it then never ends.  Such grammars are outside
+    the property (nothing is accepted) and are not generated."""
+    k = n["k"]
+    if k == "alt" and in_rep and any(nullable(x) for x in n["xs"]):
+        return True
+    if k == "rep":
+        return loops_forever(n["x"], True)
+    return any(loops_forever(c, in_rep) for c in kids(n))
+
+
 def has_asgn(n):
     return any(x["k"] == "asgn" for x in walk_nodes(n))
 
@@ -342,17 +371,30 @@ def uses_sub(n):
 def gen_case(rng):
     numeric = "FLOAT" if rng.chance(0.12) else "INT"
     allow_sub = rng.chance(0.35)
-    g = G(rng, ATTRS[: rng.weighted([(1, 2), (2, 5), (3, 3)])], numeric, allow_sub)
-    body = g.body(rng.weighted([(1, 2), (2, 5), (3, 4)]))
-    if not has_asgn(body):
-        body = {"k": "seq", "xs": [body, g.site()]}
+    nattrs = rng.weighted([(1, 2), (2, 5), (3, 3)])
+    depth = rng.weighted([(1, 2), (2, 5), (3, 4)])
+    for _ in range(20):
+        g = G(rng, ATTRS[:nattrs], numeric, allow_sub)
+        body = g.body(depth)
+        if not has_asgn(body):
+            body = {"k": "seq", "xs": [body, g.site()]}
+        if not loops_forever(normalize(body)):
+            break
+    else:
+        body = {"k": "seq", "xs": [g.site(), g.site()]}
     rules = {"Model": body}
     if uses_sub(body):
-        gs = G(rng, SUB_ATTRS[: rng.randint(1, 2)], numeric, False)
-        gs.kw, gs.lit = 50, 50
-        sb = gs.body(rng.weighted([(1, 4), (2, 4)]))
-        if not has_asgn(sb):
-            sb = {"k": "seq", "xs": [sb, gs.site()]}
+        sdepth = rng.weighted([(1, 4), (2, 4)])
+        for _ in range(20):
+            gs = G(rng, SUB_ATTRS[: rng.randint(1, 2)], numeric, False)
+            gs.kw, gs.lit = 50, 50
+            sb = gs.body(sdepth)
+            if not has_asgn(sb):
+                sb = {"k": "seq", "xs": [sb, gs.site()]}
+            if not loops_forever(normalize(sb)):
+                break
+        else:
+            sb = gs.site()
         rules["Sub"] = sb
     case = {"rules": rules, "auto_init": rng.chance(0.7), "texts": []}
     case["texts"] = gen_texts(case, rng, 3)
@@ -461,6 +503,40 @@ def text_of(t):
 
 
 # --------------------------------------------------------------------------
+# watchdog: the code under test must not hang the run (a repetition over a
+# body that succeeds without consuming input never ends in Arpeggio)
+# --------------------------------------------------------------------------
+class Watchdog(BaseException):
+    pass
+
+
+class watchdog:
+    def __init__(self, seconds):
+        self.seconds = seconds
+
+    def __enter__(self):
+        import signal
+        import threading
+
+        self.active = threading.current_thread() is threading.main_thread()
+        if self.active:
+            def handler(sig, frm):
+                raise Watchdog()
+
+            self.old = signal.signal(signal.SIGALRM, handler)
+            signal.setitimer(signal.ITIMER_REAL, self.seconds)
+        return self
+
+    def __exit__(self, *a):
+        import signal
+
+        if self.active:
+            signal.setitimer(signal.ITIMER_REAL, 0)
+            signal.signal(signal.SIGALRM, self.old)
+        return False
+
+
+# --------------------------------------------------------------------------
 # the check
 # --------------------------------------------------------------------------
 class Prop(Check):
@@ -477,8 +553,9 @@ class Prop(Check):
         "Mult.C02_bool_then_plain_rejected",
     ]
     DRIVER = "Drivers/Mult.lean"
-    QUICK_CASES = 450
-    THOROUGH_CASES = 12000
+    QUICK_CASES = 300
+    THOROUGH_CASES = 8000
+    PROCS_THOROUGH = 4
     RULE = ("grammar whose rule bodies assign <=3 attributes at <=7 sites under nested sequence / ordered choice / "
             "optional / repetition (with separators) / unordered group with all four operators and INT, FLOAT, BOOL, "
             "STRING, ID, string-match and contained-object values, 3 texts each (derived; one in two mutated; falsy "
@@ -521,7 +598,11 @@ class Prop(Check):
         gtxt = grammar_text(case)
         obs = {"grammar_text": gtxt}
         try:
-            mm = metamodel_from_str(gtxt, auto_init_attributes=bool(case.get("auto_init", True)))
+            with watchdog(10):
+                mm = metamodel_from_str(gtxt, auto_init_attributes=bool(case.get("auto_init", True)))
+        except Watchdog:
+            obs["grammar"] = {"other": "Watchdog", "msg": "grammar load did not finish in 10 s"}
+            return obs
         except TextXError as e:
             msg = str(e)
             kind = "other"
@@ -622,9 +703,13 @@ class Prop(Check):
             obs["texts"].append(tobs)
             # 1. what the parser matched
             try:
-                parser = mm._parser_blueprint.clone()
-                parser.parse(text)
+                with watchdog(5):
+                    parser = mm._parser_blueprint.clone()
+                    parser.parse(text)
                 top = parser.parse_tree[0] if isinstance(parser.parse_tree, NonTerminal) and len(parser.parse_tree) else None
+            except Watchdog:
+                tobs["parse"] = {"other": "Watchdog", "msg": "parse did not finish in 5 s"}
+                continue
             except TextXSyntaxError as e:
                 tobs["parse"] = {"syntax": [e.line, e.col]}
                 continue
@@ -641,8 +726,11 @@ class Prop(Check):
             tobs["parse"] = {"ok": {"objs": objs, "assigned": assigned}}
             # 2. what the model holds
             try:
-                model = mm.model_from_str(text)
+                with watchdog(5):
+                    model = mm.model_from_str(text)
                 tobs["model"] = {"ok": model_objs(model)}
+            except Watchdog:
+                tobs["model"] = {"other": "Watchdog", "msg": "model construction did not finish in 5 s"}
             except TextXSemanticError as e:
                 tobs["model"] = {"err": {"cls": type(e).__name__, "err_type": getattr(e, "err_type", None), "msg": str(e)[:200]}}
             except TextXError as e:
@@ -710,7 +798,8 @@ class Prop(Check):
             if list(im) != attrs:
                 return f"rule {r}: implementation attributes {list(im)}, grammar AST {attrs}"
             for a, mm_ in zip(attrs, mo["mults"]):
-                if im[a] != mm_:
+                # property-relevant observable: list or not (exact agreement is counted in the evidence)
+                if (im[a] in MANY) != (mm_ in MANY):
                     return f"rule {r} attribute {a}: multiplicity {im[a]} (implementation) vs {mm_} (model)"
         tobjs = self._tree_objs(obs)
         ridx = {r: i for i, (r, _, _, _) in enumerate(rules)}
@@ -843,6 +932,13 @@ class Prop(Check):
         d = {"grammars_accepted": 0, "grammars_rejected": 0, "texts": 0, "texts_accepted": 0, "texts_mutated": 0,
              "objects_checked": 0, "events": 0, "falsy_values": 0, "list_attrs": 0, "scalar_attrs": 0,
              "attrs_with_2plus_values_in_some_text": 0}
+        d["exact_multiplicity_agreement"] = [0, 0]
+        for c, o, mo in zip(cases, obs, outs):
+            if isinstance(o, dict) and "ok" in o.get("grammar", {}) and isinstance(mo, dict) and "rules" in mo:
+                for (r, _, attrs, _), ro in zip(self._rules(c), mo["rules"]):
+                    for a, mm_ in zip(attrs, ro["mults"]):
+                        d["exact_multiplicity_agreement"][1] += 1
+                        d["exact_multiplicity_agreement"][0] += o["grammar"]["ok"].get(r, {}).get(a) == mm_
         for c, o in zip(cases, obs):
             if not isinstance(o, dict) or "grammar" not in o:
                 continue
@@ -885,7 +981,7 @@ class Prop(Check):
         for rule in list(case["rules"]):
             for smaller in shrink_body(case["rules"][rule]):
                 rules = dict(case["rules"], **{rule: smaller})
-                if not has_asgn(rules[rule]):
+                if not has_asgn(rules[rule]) or loops_forever(normalize(rules[rule])):
                     continue
                 if "Sub" in rules and not uses_sub(rules["Model"]):
                     rules = {"Model": rules["Model"]}
